@@ -128,7 +128,7 @@ func (c *CryptoCodec) Encrypt(hexKey, hexIv string, text []byte) ([]byte, error)
 
 	switch c.mode {
 	case CBC:
-		return c.encryptCBC(block, iv, text), nil
+		return c.encryptCBC(block, iv, text)
 	case CTR:
 		return c.encryptCTR(block, iv, text), nil
 	case GCM:
@@ -139,19 +139,27 @@ func (c *CryptoCodec) Encrypt(hexKey, hexIv string, text []byte) ([]byte, error)
 	return nil, errors.New(c.name, "Unsupported mode: %s", c.mode)
 }
 
-func (c *CryptoCodec) encryptCBC(block cipher.Block, iv, text []byte) []byte {
+func (c *CryptoCodec) encryptCBC(block cipher.Block, iv, text []byte) ([]byte, error) {
 	enc := cipher.NewCBCEncrypter(block, iv)
 
 	padded := text
 	if c.padding != NOPAD {
-		padSize := aes.BlockSize - (len(text) & aes.BlockSize)
+		padSize := aes.BlockSize - (len(text) % aes.BlockSize)
 		padding := bytes.Repeat([]byte{byte(padSize)}, padSize)
 		padded = append(padded, padding...)
+	}
+	// CBC mode works on full blocks only
+	if len(padded)%aes.BlockSize != 0 {
+		return nil, errors.New(
+			c.name,
+			"Input size must be a multiple of %d bytes for %s mode without padding but got %d bytes",
+			aes.BlockSize, c.mode, len(padded),
+		)
 	}
 
 	encrypted := make([]byte, len(padded))
 	enc.CryptBlocks(encrypted, padded)
-	return encrypted
+	return encrypted, nil
 }
 
 func (c *CryptoCodec) encryptCTR(block cipher.Block, iv, text []byte) []byte {
@@ -169,7 +177,7 @@ func (c *CryptoCodec) Decrypt(hexKey, hexIv string, text []byte) ([]byte, error)
 
 	switch c.mode {
 	case CBC:
-		return c.decryptCBC(block, iv, text), nil
+		return c.decryptCBC(block, iv, text)
 	case CTR:
 		return c.decryptCTR(block, iv, text), nil
 	case GCM:
@@ -180,7 +188,13 @@ func (c *CryptoCodec) Decrypt(hexKey, hexIv string, text []byte) ([]byte, error)
 	return nil, errors.New(c.name, "Unsupported mode: %s", c.mode)
 }
 
-func (c *CryptoCodec) decryptCBC(block cipher.Block, iv, text []byte) []byte {
+func (c *CryptoCodec) decryptCBC(block cipher.Block, iv, text []byte) ([]byte, error) {
+	// CBC mode works on full blocks only
+	if len(text)%aes.BlockSize != 0 {
+		return nil, &BadDecryptError{
+			Message: "CBC ciphertext is not a multiple of the block size",
+		}
+	}
 	dec := cipher.NewCBCDecrypter(block, iv)
 
 	decrypted := make([]byte, len(text))
@@ -188,10 +202,16 @@ func (c *CryptoCodec) decryptCBC(block cipher.Block, iv, text []byte) []byte {
 
 	if c.padding != NOPAD {
 		// unpadding
+		if len(decrypted) == 0 {
+			return nil, &BadDecryptError{Message: "CBC ciphertext is empty"}
+		}
 		padSize := int(decrypted[len(decrypted)-1])
+		if padSize < 1 || padSize > aes.BlockSize || padSize > len(decrypted) {
+			return nil, &BadDecryptError{Message: "CBC padding is malformed"}
+		}
 		decrypted = decrypted[:len(decrypted)-padSize]
 	}
-	return decrypted
+	return decrypted, nil
 }
 
 func (c *CryptoCodec) decryptCTR(block cipher.Block, iv, text []byte) []byte {
